@@ -368,43 +368,113 @@ def call_columns(call, K) -> list:
     return used
 
 
-def run_calls(sess, conn, F, calls, exported):
-    from checks import c17_cases as K
-    out = []
+def _frame(sess, K, cols):
     types = dict(K.SCHEMA)
-    for call in calls:
-        fn = call["fn"]
-        if fn != "Column.getItem" and fn not in exported:
-            continue
-        ent = {"id": call["id"], "fn": fn, "mode": call["mode"]}
-        start = len(conn.log)
-        try:
-            cols = call_columns(call, K)
-            idx = [K.COLS.index(c) for c in cols]
-            rows = [tuple(r[k] for k in idx) for r in K.ROWS]
-            df = sess.createDataFrame(rows, ", ".join(f"{c} {types[c]}" for c in cols))
-            col = K.build_call(call, F)
-            if call["mode"] == "row":
-                q = df.select("id", col)
+    idx = [K.COLS.index(c) for c in cols]
+    rows = [tuple(r[k] for k in idx) for r in K.ROWS]
+    return sess.createDataFrame(rows, ", ".join(f"{c} {types[c]}" for c in cols))
+
+
+def _stmts(conn, start):
+    return [{k: st.get(k) for k in ("sql", "parse", "fixed_point", "error", "rerendered")} for st in conn.log[start:]]
+
+
+def run_one(sess, conn, F, K, call):
+    """one call, one statement (two for an aggregate: the 5 ordinary rows, the all-NULL row)"""
+    ent = {"id": call["id"], "fn": call["fn"], "mode": call["mode"]}
+    start = len(conn.log)
+    try:
+        df = _frame(sess, K, call_columns(call, K))
+        col = K.build_call(call, F)
+        if call["mode"] == "row":
+            q = df.select("id", col)
+            ent["tree"] = q.expression.sql(dialect="spark")
+            got = sorted(q.collect(), key=lambda r: r[0])
+            ent["values"] = [K.canon(r[1]) for r in got]
+            ent["name"] = list(got[0].__fields__)[1] if got else None
+        else:
+            vals = []
+            for cond in (F.col("id") <= 5, F.col("id") == 6):
+                q = df.where(cond).agg(col)
                 ent["tree"] = q.expression.sql(dialect="spark")
-                got = sorted(q.collect(), key=lambda r: r[0])
-                ent["values"] = [K.canon(r[1]) for r in got]
-                ent["name"] = list(got[0].__fields__)[1] if got else None
-            else:
-                vals = []
-                for cond in (F.col("id") <= 5, F.col("id") == 6):
-                    q = df.where(cond).agg(col)
-                    ent["tree"] = q.expression.sql(dialect="spark")
-                    got = q.collect()
-                    vals.append(K.canon(got[0][0]))
-                    ent["name"] = list(got[0].__fields__)[0]
-                ent["values"] = vals
-            ent["exc"] = None
-        except Exception as ex:  # noqa
-            ent.update({"values": None, "name": None, "exc": type(ex).__name__ + ":" + str(ex)[:200]})
-        ent["statements"] = [{k: st.get(k) for k in ("sql", "parse", "fixed_point", "error", "rerendered")} for st in conn.log[start:]]
-        out.append(ent)
-    return out
+                got = q.collect()
+                vals.append(K.canon(got[0][0]))
+                ent["name"] = list(got[0].__fields__)[0]
+            ent["values"] = vals
+        ent["exc"] = None
+    except Exception as ex:  # noqa
+        ent.update({"values": None, "name": None, "exc": type(ex).__name__ + ":" + str(ex)[:200]})
+    ent["statements"] = _stmts(conn, start)
+    return ent
+
+
+def run_batch(sess, conn, F, K, batch):
+    """several calls of the same mode in ONE statement; None when anything at all goes wrong (the caller then runs them one by one)"""
+    start = len(conn.log)
+    try:
+        cols = ["id"]
+        for call in batch:
+            cols += [c for c in call_columns(call, K) if c not in cols]
+        df = _frame(sess, K, cols)
+        built = [K.build_call(call, F) for call in batch]
+        ents = [{"id": c["id"], "fn": c["fn"], "mode": c["mode"], "exc": None, "tree": None, "batched": len(batch)} for c in batch]
+        if batch[0]["mode"] == "row":
+            got = sorted(df.select("id", *built).collect(), key=lambda r: r[0])
+            if len(got) != len(K.ROWS) or len(got[0]) != len(batch) + 1:
+                return None               # a member changed the row count (a generator read back as a join): redo one by one
+            names = list(got[0].__fields__)
+            for k, e in enumerate(ents):
+                e["values"] = [K.canon(r[k + 1]) for r in got]
+                e["name"] = names[k + 1]
+        else:
+            for e in ents:
+                e["values"] = []
+            for cond in (F.col("id") <= 5, F.col("id") == 6):
+                got = df.where(cond).agg(*built).collect()
+                if len(got) != 1 or len(got[0]) != len(batch):
+                    return None
+                names = list(got[0].__fields__)
+                for k, e in enumerate(ents):
+                    e["values"].append(K.canon(got[0][k]))
+                    e["name"] = names[k]
+        st = _stmts(conn, start)
+        if any(not x["parse"] or not x["fixed_point"] or x["error"] for x in st):
+            return None
+        for e in ents:
+            e["statements"] = st
+        return ents
+    except Exception:  # noqa
+        return None
+
+
+def run_calls(sess, conn, F, calls, exported, solo_ids=(), batch_size=8):
+    """Calls the recorded baseline expects to be clean on this engine are driven several per statement (the statement must parse, be
+    a fixed point and execute, else the batch is redone one call per statement); everything else one call per statement."""
+    from checks import c17_cases as K
+    solo_ids = set(solo_ids)
+    todo = [c for c in calls if c["fn"] == "Column.getItem" or c["fn"] in exported]
+    out = {}
+    batches: list = []
+    for call in todo:
+        if call["id"] in solo_ids or batch_size <= 1:
+            out[call["id"]] = run_one(sess, conn, F, K, call)
+            continue
+        base = call["id"].split("@")[0].split("#")[0]
+        for b in batches:
+            # same mode, room left, and no other call of the same function (their automatic aliases would collide)
+            if b["mode"] == call["mode"] and len(b["calls"]) < batch_size and base not in b["fns"]:
+                b["calls"].append(call)
+                b["fns"].add(base)
+                break
+        else:
+            batches.append({"mode": call["mode"], "calls": [call], "fns": {base}})
+    for b in batches:
+        ents = run_batch(sess, conn, F, K, b["calls"]) if len(b["calls"]) > 1 else None
+        if ents is None:
+            ents = [run_one(sess, conn, F, K, c) for c in b["calls"]]
+        for e in ents:
+            out[e["id"]] = e
+    return [out[c["id"]] for c in todo]
 
 
 # ------------------------------------------------------------------------------------------------
@@ -523,7 +593,8 @@ def run(engine: str, req: dict) -> dict:
     # ---- every function call template, on this engine
     exported = sorted(n for n in dir(F) if callable(getattr(F, n)) and hasattr(getattr(F, n), "unsupported_engines"))
     out["exported"] = exported
-    out["functions"] = run_calls(sess, conn, F, req.get("calls", []), set(exported))
+    out["functions"] = run_calls(sess, conn, F, req.get("calls", []), set(exported), solo_ids=req.get("solo_ids", {}).get(engine, []),
+                                 batch_size=req.get("batch_size", 8))
 
     # ---- dispatch
     from sqlframe.base.util import get_func_from_session
